@@ -99,12 +99,15 @@ func (c Enum) String() string {
 }
 
 func (c *Enum) Append(i EnumItem) int {
-	if _, ok := c.uniqueIdx[i.enumItemValue]; ok {
+	// Two items are duplicates when Validate cannot tell them apart: 1.5 and
+	// 1.50, 0 and -0 are the same item.
+	key := i.enumItemValue.comparable()
+	if _, ok := c.uniqueIdx[key]; ok {
 		panic(errors.Format(errors.ErrDuplicationInEnumRule, i.src.String()))
 	}
 	idx := len(c.items)
 	c.items = append(c.items, i)
-	c.uniqueIdx[i.enumItemValue] = struct{}{}
+	c.uniqueIdx[key] = struct{}{}
 	return idx
 }
 
